@@ -8,61 +8,24 @@
     interpretation [fn] of them.  The comparison constants are the doubles the code compares
     with (0.01 is the double nearest 1/100, Tc1_C is the double 647.3 - 273.15). *)
 From Coq Require Import ZArith QArith Qreals Reals List Bool Lra.
-From P Require Import Expr.
+From P Require Import Expr Common BoundsDefs.
 From Gen Require Import GenThermo GenTraced.
 Import ListNotations.
 Close Scope Q_scope.
 Open Scope R_scope.
 
-(** the double 0.01 *)
-Definition d001 : Q := (5764607523034235 # 576460752303423488)%Q.
-Lemma d001_is_nearest : (Qabs.Qabs (d001 - (1 # 100)) <= 1 # 1152921504606846976)%Q.   (* 2^-60 *)
-Proof. vm_compute. discriminate. Qed.
-
-(** the two values compared by the last test on the value-returning (first) path *)
-Definition last_test (t : traced) : nat * nat :=
-  match t_paths t with
-  | p :: _ => match rev (p_conds p) with c :: _ => (c_a c, c_b c) | [] => (0, 0)%nat end
-  | [] => (0, 0)%nat
-  end.
-
-(** evaluate the nodes a goal mentions (only those: the environment is never built in full) *)
-Ltac ev_nodes ns :=
-  repeat match goal with
-  | |- context [@nth R ?k (evalR ?fn ?v ?c ns) 0] =>
-      let e := constr:(@nth R k (evalR fn v c ns) 0) in
-      let e' := eval lazy [evalR eval_nodes eval_node get nth map ns] in e in
-      change e with e'
-  end.
-
-Ltac open_run tr :=
-  unfold runR, resR;
-  lazy [tr t_paths t_nodes select_pathR forallb p_conds cond_holdsR c_cmp c_a c_b c_expect andb].
-
-(** split on every comparison the goal still mentions, simplifying after each split *)
-Ltac split_cmps :=
-  unfold Rleb, Rltb;
-  repeat (match goal with
-          | |- context [Rle_dec ?a ?b] => destruct (Rle_dec a b)
-          | |- context [Rlt_dec ?a ?b] => destruct (Rlt_dec a b)
-          end; cbn [eqb andb p_out map]).
-
-Ltac q2r := unfold Q2R in *; cbn [Qnum Qden] in *.
-
-Definition has_value (r : rres) : Prop := exists l, r = RRet l.
-
 Section Bounds.
   Variables (fn : fnR) (coef : nat -> R).
-  Definition sat_ (t : R) : R := fn f_sat 0%nat [t].
-  Definition b23p_ (t : R) : R := fn f_b23p 0%nat [t].
-  Definition solve_ (p : R) : R := fn f_solve 0%nat [p].
+  Notation sat_ := (sat_ fn).
+  Notation b23p_ := (b23p_ fn).
+  Notation solve_ := (solve_ fn).
+  Notation cowat_in_range := (cowat_in_range fn).
+  Notation cowat_zp := (cowat_zp fn coef).
+  Notation supst_in_range := (supst_in_range fn).
+  Notation tsat_in_range := (tsat_in_range fn).
 
   (** *** cowat: 0.01 <= t <= 350, sat(t) <= p <= 100 MPa *)
-  Definition cowat_in_range (t p : R) : Prop :=
-    Q2R d001 <= t <= Q2R (350 # 1) /\ sat_ t <= p <= Q2R (100000000 # 1).
   (** the quantity ZP whose sign cowat tests before taking a square root *)
-  Definition cowat_zp (t p : R) : R :=
-    nth (snd (last_test cowat_on_traced)) (evalR fn (fun i => nth i [t; p] 0) coef cowat_on_nodes) 0.
 
   Lemma cowat_bounds t p : (cowat_in_range t p -> 0 <= cowat_zp t p) ->
     (cowat_in_range t p -> has_value (runR cowat_on_traced fn coef [t; p])) /\
@@ -70,11 +33,11 @@ Section Bounds.
   Proof.
     (* all steps keep the two sides of every conversion syntactically aligned: the kernel never
        has to compare two unevaluated DAG values *)
-    unfold cowat_zp. lazy [last_test cowat_on_traced t_paths p_conds rev app snd c_b].
+    unfold BoundsDefs.cowat_zp. lazy [last_test cowat_on_traced t_paths p_conds rev app snd c_b].
     open_run cowat_on_traced.
     ev_nodes cowat_on_nodes.
     match goal with |- context [Rleb (Q2R 0) ?z] => generalize z; intros Z end.
-    unfold cowat_in_range, sat_, f_sat, d001, has_value.
+    unfold BoundsDefs.cowat_in_range, BoundsDefs.sat_, f_sat, d001, has_value.
     replace (Q2R 0) with 0 by (unfold Q2R; cbn; lra).
     split_cmps; intros HZ; (split; [intros HR | intros HN]);
       try (eexists; reflexivity); try reflexivity;
@@ -82,11 +45,6 @@ Section Bounds.
   Qed.
 
   (** *** supst: 0.01 <= t <= 800, 0 <= p, and p <= sat(t) up to Tc1_C, <= b23p(t) up to 590, <= 100 MPa above *)
-  Definition supst_in_range (t p : R) : Prop :=
-    Q2R d001 <= t <= Q2R (800 # 1) /\ 0 <= p /\
-    (t <= Q2R Tc1_C_Q -> p <= sat_ t) /\
-    (Q2R Tc1_C_Q < t -> t <= Q2R (590 # 1) -> p <= b23p_ t) /\
-    (Q2R (590 # 1) < t -> p <= Q2R (100000000 # 1)).
 
   Lemma supst_bounds t p :
     (supst_in_range t p -> has_value (runR supst_on_traced fn coef [t; p])) /\
@@ -94,7 +52,7 @@ Section Bounds.
   Proof.
     open_run supst_on_traced.
     ev_nodes supst_on_nodes.
-    unfold supst_in_range, sat_, b23p_, f_sat, f_b23p, d001, Tc1_C_Q, has_value.
+    unfold BoundsDefs.supst_in_range, BoundsDefs.sat_, BoundsDefs.b23p_, f_sat, f_b23p, d001, Tc1_C_Q, has_value.
     replace (Q2R 0) with 0 by (unfold Q2R; cbn; lra).
     split_cmps; (split; [intros HR | intros HN]);
       try (eexists; reflexivity); try reflexivity;
@@ -104,7 +62,6 @@ Section Bounds.
   Qed.
 
   (** *** sat: 0.01 <= t <= Tc1_C *)
-  Definition sat_in_range (t : R) : Prop := Q2R d001 <= t <= Q2R Tc1_C_Q.
 
   Lemma sat_bounds t :
     (sat_in_range t -> has_value (runR sat_on_traced fn coef [t])) /\
@@ -112,14 +69,13 @@ Section Bounds.
   Proof.
     open_run sat_on_traced.
     ev_nodes sat_on_nodes.
-    unfold sat_in_range, d001, Tc1_C_Q, has_value.
+    unfold BoundsDefs.sat_in_range, d001, Tc1_C_Q, has_value.
     split_cmps; (split; [intros HR | intros HN]);
       try (eexists; reflexivity); try reflexivity;
       try (exfalso; apply HN; q2r; lra); try (exfalso; q2r; lra).
   Qed.
 
   (** *** tsat: sat(0.01) <= p <= Pc1; inside, the value is whatever the root finder returns *)
-  Definition tsat_in_range (p : R) : Prop := sat_ (Q2R d001) <= p <= Q2R Pc1_Q.
 
   Lemma tsat_bounds p :
     (tsat_in_range p -> runR tsat_on_traced fn coef [p] = RRet [solve_ p]) /\
@@ -127,7 +83,7 @@ Section Bounds.
   Proof.
     open_run tsat_on_traced.
     ev_nodes tsat_on_nodes.
-    unfold tsat_in_range, sat_, solve_, f_sat, f_solve, d001, Pc1_Q.
+    unfold BoundsDefs.tsat_in_range, BoundsDefs.sat_, BoundsDefs.solve_, f_sat, f_solve, d001, Pc1_Q.
     split_cmps; (split; [intros HR | intros HN]);
       try reflexivity; try (exfalso; apply HN; lra); try (exfalso; lra).
   Qed.
